@@ -209,6 +209,14 @@ def part_a(ctx):
                          "call": describe(args, kwargs)[:500],
                          "got": str(got)[:200], "fresh": str(fresh)[:200]})
                     break
+                if (len(cached.Cache._cache) != len(cached.Cache._keys)
+                        or len(cached.Cache._keys) > cap
+                        or set(cached.Cache._cache) != set(cached.Cache._keys)):
+                    ctx.violation(
+                        "spec", f"Cache bookkeeping out of sync or over capacity: "
+                        f"{len(cached.Cache._cache)} cached results, {len(cached.Cache._keys)} keys, "
+                        f"MAX_SIZE {cap}", {"part": "A", "cap": cap, "history_tail": hist[-20:]})
+                    break
                 if fresh[0] == "exc":
                     ctx.stat("raising_calls")
                     continue       # nothing cached, nothing sent to the model
